@@ -318,7 +318,7 @@ var c18SoloEvery = 3
 
 func runC18(tier string) int {
 	if tier == "thorough" {
-		c18SoloEvery = 8
+		c18SoloEvery = 24
 	}
 	code1 := runParserProp(c18Prop(false), tier)
 	ev1 := readEvidence("C18")
